@@ -802,6 +802,8 @@ class C10(Prop):
                 out["self_overlaps"] = exc(lambda: bool(tsl.self_overlaps()))
                 out["is_dense"] = exc(lambda: bool(tsl.is_dense()))
             out["canon"] = of_tsl(tsl.canonicalize())
+            # theorem canonicalize_idempotent: the canonical form is a fixed point of the real canonicalize()
+            out["idem"] = of_tsl(tsl.canonicalize().canonicalize()) == out["canon"]
             out["tile_bounds"] = tsl.tile_bounds()
             out["print"] = str(tsl)
             out["attr_print"] = str(attr)
@@ -910,6 +912,7 @@ class C10(Prop):
             return r
         if k == "views":
             r["stable"] = True
+            r["idem"] = True
             L = case["layout"]
             if not (is_static(L) and all(b > 0 for t in L["ts"] for _, b in t)):
                 r["addr"] = None
@@ -948,6 +951,9 @@ class C10(Prop):
             tsl = to_tsl(L)
             if not impl_out.get("stable", True):
                 fail(f"a view of `{tsl}` changed the layout object or answered differently when asked again")
+            if not impl_out.get("idem", True):
+                fail(f"canonicalize() is not idempotent on `{tsl}`: `{tsl.canonicalize()}` canonicalises further to "
+                     f"`{tsl.canonicalize().canonicalize()}` (theorem canonicalize_idempotent)")
             # textual form: print -> parse gives an equal layout (dynamic entries and offset included);
             # 0 prints as `?` (outside "positive"), so only layouts without 0 entries are required to round-trip;
             # a rank-0 layout with an offset prints a leading comma and is not a layout of the quantifier
